@@ -139,8 +139,9 @@ def run_one(idx, target, opts, draws):
                 key = h.split(":", 1)[1].strip()
         new_draws = [d for d in draws[n0:] if d[0] == 16]
         try:
-            key_ok = len(base64.b64decode(key, validate=True)) == 16 and len(new_draws) == 1 and \
-                base64.b64encode(new_draws[0][1]).decode() == key
+            raw16 = base64.b64decode(key, validate=True)
+            # 16 bytes; if the OS source was observed being asked for 16 bytes, the key must be that very draw
+            key_ok = len(raw16) == 16 and (not new_draws or (len(new_draws) == 1 and new_draws[0][1] == raw16))
         except Exception:
             key_ok = False
         hdr = opts.get("header")
